@@ -9,11 +9,12 @@ reference):
   ("call", fn, argsigs) ("cfault", fn)
 """
 import functools
+import types
 
 from .values import sig
 from .driver import make_exc
 
-ASYNC_FLAVOURS = ("agen", "aclass", "aclass_noclose", "aplain", "agenlike", "aeager", "aeagerstop", "aproxy", "areiter", "alateclose")
+ASYNC_FLAVOURS = ("agen", "aclass", "aclass_noclose", "aplain", "agenlike", "aeager", "aeagerstop", "aproxy", "areiter", "alateclose", "agencoro")
 SYNC_FLAVOURS = ("list", "seq", "iter", "tuple", "tuplesub", "reiter", "sgen", "ringlist")
 SRC_FLAVOURS = ASYNC_FLAVOURS + SYNC_FLAVOURS
 FN_FLAVOURS = ("def", "async", "partial", "obj", "objaw", "falsyobj", "eqobj", "unhashobj", "aeqobj", "gencoro", "classaw", "defcoro")
@@ -314,6 +315,19 @@ class AProxySource(AClassSource):
     obj = property(lambda self: self._proxy)
 
 
+class AGenCoroSource(AClassSource):
+    """class based async iterator whose ``__anext__`` and ``aclose`` are generator-based coroutines
+    (``types.coroutine``): what they return is awaitable but has no ``__await__`` and is no ``Awaitable`` instance"""
+
+    @types.coroutine
+    def __anext__(self):
+        return (yield from AClassSource.__anext__(self).__await__())
+
+    @types.coroutine
+    def aclose(self):
+        return (yield from AClassSource.aclose(self).__await__())
+
+
 class ALateCloseSource(AClassSource):
     """a stream that is opened by its first pull: only from then on does it have an ``aclose`` at all"""
 
@@ -554,6 +568,7 @@ _SRC_CLASSES = {
     "aeagerstop": AEagerStopSource,
     "aproxy": AProxySource,
     "alateclose": ALateCloseSource,
+    "agencoro": AGenCoroSource,
     "areiter": AReiterSource,
     "reiter": ReiterSource,
     "list": ListSource,
